@@ -30,7 +30,7 @@ def one(patch):
     d = os.path.dirname(patch)
     pid = os.path.basename(d)
     n = os.path.basename(patch)[5:-5]
-    name = f"{pid}-b{n}"
+    name = f"{pid}-{os.environ.get("TWIN_TAG", "b")}{n}"
     wt = f"/tmp/curtw/{name}"
     res = {"name": name}
     sh(["git", "-C", "/repo", "worktree", "remove", "--force", wt])
